@@ -832,7 +832,17 @@ func (env *SpecEnv) trCall(e *SExpr) Val {
 		key := "G:sent:" + mangle(es)
 		qs := c.seqSort(es)
 		seqElem[qs] = es
-		return Val{T: sel(c.heapRead(env.st, key, arraySort("Int", qs)), ch.T), S: qs}
+		q := Val{T: sel(c.heapRead(env.st, key, arraySort("Int", qs)), ch.T), S: qs}
+		if !strings.Contains(q.T, "!q") {
+			// (only when the term mentions no quantified variable) a ghost sequence has a non-negative length (it starts arbitrary and only grows): a fact about this
+			// particular read, not an axiom over the (freely generated) sequence sort
+			tgt := env.st
+			if env.cur != nil {
+				tgt = env.cur
+			}
+			tgt.assume("(>= (qlen_" + string(qs)[len("Seq_"):] + " " + q.T + ") 0)")
+		}
+		return q
 	case "typeis":
 		// typeis(x, "pkg.T") / typeis(x, "*pkg.T")
 		x := env.tr(args[0])
